@@ -117,6 +117,96 @@ pub fn case(input: &[Term]) -> Vec<(String, String)> {
     out
 }
 
+/// The iterator adaptors agree with plain `next`: after p items were taken, `nth(n)` is item p+n of the plain
+/// enumeration, `count` is what is left, `last` the last item, `skip` / `step_by` select what their contract says -
+/// also on an iterator that has already yielded items (a second use). Vectors with <= 3 undecided positions.
+pub fn adaptor_case(input: &[Term]) -> Vec<(String, String)> {
+    let mut out = vec![];
+    for three in [false, true] {
+        let name = if three { "three-valued" } else { "two-valued" };
+        let mk = || -> Box<dyn Iterator<Item = Vec<Term>>> {
+            if three {
+                Box::new(ThreeValuedInterpretationsIterator::new(input))
+            } else {
+                Box::new(TwoValuedInterpretationsIterator::new(input))
+            }
+        };
+        let r = guard(|| {
+            let mut found: Vec<String> = vec![];
+            let plain: Vec<Vec<Term>> = mk().take(100).collect();
+            let total = plain.len();
+            for p in 0..=total.min(4) {
+                for n in 0..=(total + 1).min(6) {
+                    let mut it = mk();
+                    for _ in 0..p {
+                        it.next();
+                    }
+                    let got = it.nth(n);
+                    let want = plain.get(p + n).cloned();
+                    if got != want {
+                        found.push(format!("after {} item(s) nth({}) yields {:?}, the plain enumeration has {:?} there", p, n, got.map(|x| show(&x)), want.map(|x| show(&x))));
+                    }
+                    // and the iterator goes on behind it
+                    let next = it.next();
+                    let want_next = plain.get(p + n + 1).cloned();
+                    if p + n < total && next != want_next {
+                        found.push(format!("after {} item(s) and nth({}) the next item is {:?} instead of {:?}", p, n, next.map(|x| show(&x)), want_next.map(|x| show(&x))));
+                    }
+                }
+                let mut it = mk();
+                for _ in 0..p {
+                    it.next();
+                }
+                let c = it.count();
+                if c != total - p.min(total) {
+                    found.push(format!("after {} item(s) count() is {} of {} items", p, c, total));
+                }
+                let mut it = mk();
+                for _ in 0..p {
+                    it.next();
+                }
+                if it.last() != if p < total { plain.last().cloned() } else { None } {
+                    found.push(format!("after {} item(s) last() is not the last item of the enumeration", p));
+                }
+                for step in 1..=3usize {
+                    let mut it = mk();
+                    for _ in 0..p {
+                        it.next();
+                    }
+                    let got: Vec<Vec<Term>> = it.step_by(step).collect();
+                    let want: Vec<Vec<Term>> = plain.iter().skip(p).step_by(step).cloned().collect();
+                    if got != want {
+                        found.push(format!("after {} item(s) step_by({}) yields {} items, {} expected", p, step, got.len(), want.len()));
+                    }
+                    let mut it = mk();
+                    for _ in 0..p {
+                        it.next();
+                    }
+                    let got: Vec<Vec<Term>> = it.skip(step).collect();
+                    let want: Vec<Vec<Term>> = plain.iter().skip(p + step).cloned().collect();
+                    if got != want {
+                        found.push(format!("after {} item(s) skip({}) yields {} items, {} expected", p, step, got.len(), want.len()));
+                    }
+                }
+            }
+            let (lo, hi) = mk().size_hint();
+            if lo > total || hi.map(|h| h < total).unwrap_or(false) {
+                found.push(format!("size_hint ({}, {:?}) excludes the real number of items {}", lo, hi, total));
+            }
+            found
+        });
+        match r {
+            Err(m) => out.push((format!("{}:panic", name), m)),
+            Ok(found) => {
+                for f in found.into_iter().take(3) {
+                    out.push((format!("{}:adaptor", name), f));
+                }
+            }
+        }
+    }
+    out
+}
+
 /// prefix check for vectors with many undecided positions: k undecided positions interleaved with decided ones
 pub fn prefix_case(k: usize) -> Vec<(String, String)> {
     let mut out = vec![];
@@ -164,7 +254,7 @@ pub fn prefix_case(k: usize) -> Vec<(String, String)> {
 }
 
 pub fn run_c20(run: &Run) {
-    run.set_rule("every vector over {false, true, Term(2), Term(12)} of every length 0..L (L = 7 quick, 9 thorough); both public iterators are collected and compared as multisets with the 2^k completions / 3^k refinements computed independently. Non-trivial: vectors with >= 1 undecided and >= 1 decided position.");
+    run.set_rule("every vector over {false, true, Term(2), Term(12)} of every length 0..L (L = 7 quick, 9 thorough); both public iterators are collected and compared as multisets with the 2^k completions / 3^k refinements computed independently. For vectors of length <= 5 the iterator adaptors (nth, count, last, skip, step_by, size_hint) must agree with plain next, also on an iterator that has already yielded items; the vectors of length <= 5 are run again with a logger that accepts TRACE records. Non-trivial: vectors with >= 1 undecided and >= 1 decided position.");
     run.assume("lengths above the bound are not explored; after the first None the iterators are polled twice more and must stay exhausted (each completion exactly once also for a consumer that polls again)");
     let maxlen = if run.quick() { 7 } else { 9 };
     for len in 0..=maxlen {
@@ -183,6 +273,11 @@ pub fn run_c20(run: &Run) {
                 }
                 for (kind, msg) in case(&v) {
                     run.violation(&kind, format!("{} on {:?}", msg, show(&v)), json!({"type": "interp", "vector": show(&v)}));
+                }
+                if und <= 3 && len <= 5 {
+                    for (kind, msg) in adaptor_case(&v) {
+                        run.violation(&kind, format!("{} on {:?}", msg, show(&v)), json!({"type": "interp", "vector": show(&v)}));
+                    }
                 }
             },
             &|k| json!({"type": "interp", "vector": show(&vector(len, k))}),
@@ -287,6 +382,33 @@ pub fn run_c20(run: &Run) {
     run.add_outcomes((0..=maxlen as u64).map(|k| k)); // distinct numbers of undecided positions seen
     run.sample(json!({"vector": [1, 2, 0, 12, 1], "two_valued_items": 4, "three_valued_items": 9}));
     run.sample(json!({"vector": show(&vector(7, 12345))}));
+    // once more with a logger that accepts TRACE records: what the iterators yield must not depend on whether somebody
+    // listens (the log statements are executed and their arguments evaluated)
+    trace_logging(true);
+    for len in 0..=5usize {
+        let total = 4u64.pow(len as u32);
+        let res = run.par_family(
+            &format!("vectors of length {} with trace logging switched on", len),
+            total,
+            || 0u64,
+            |st, k| {
+                let v = vector(len, k);
+                *st += 1;
+                let mut found = case(&v);
+                if v.iter().filter(|t| !t.is_truth_value()).count() <= 2 {
+                    found.extend(adaptor_case(&v));
+                }
+                for (kind, msg) in found {
+                    run.violation(&format!("trace-logging:{}", kind), format!("{} on {:?} (a logger accepting TRACE records is installed)", msg, show(&v)), json!({"type": "interp", "vector": show(&v), "trace_logging": true}));
+                }
+            },
+            &|k| json!({"type": "interp", "vector": show(&vector(len, k)), "trace_logging": true}),
+        );
+        for st in res {
+            run.add_counts(st, st * 4, st, st);
+        }
+    }
+    trace_logging(false);
     run.extra("states_are", json!("input vectors"));
     run.extra("transitions_are", json!("items yielded by the real iterators (each compared)"));
 }
@@ -312,5 +434,19 @@ pub fn replay(case_v: &Value) -> Vec<(String, String)> {
         .as_array()
         .map(|a| a.iter().map(|x| Term(x.as_u64().unwrap_or(0) as usize)).collect())
         .unwrap_or_default();
-    case(&v)
+    let trace = case_v["trace_logging"].as_bool().unwrap_or(false);
+    if trace {
+        trace_logging(true);
+    }
+    let mut found = case(&v);
+    if v.iter().filter(|t| !t.is_truth_value()).count() <= 3 && v.len() <= 5 {
+        found.extend(adaptor_case(&v));
+    }
+    if trace {
+        trace_logging(false);
+        for f in found.iter_mut() {
+            f.0 = format!("trace-logging:{}", f.0);
+        }
+    }
+    found
 }
